@@ -1013,6 +1013,9 @@ def c02_reference(tier, seed):
                         'pattern-removed': lambda d: d['patterns'].pop(0),
                         # remap rules with a negative and a zero coefficient: linear substitution keeps negative totals
                         'negative-remap': lambda d: d.setdefault('remaps', {}).update({'C(C)(H)3': [[1, 'Methyl'], [-0.5, 'Penalty'], [0, 'Nothing']]}),
+                        # chained rules (the target of one is the key of another) and a descriptor that carries the name of a group: one linear substitution, names add up
+                        'chained-remap': lambda d: d.setdefault('remaps', {}).update({'C(H)3(O)': [[1, 'C(C)(H)3']], 'C(C)(H)3': [[1, 'methyl']]}),
+                        'descriptor-named-as-group': lambda d: d.update({'smarts_based_descriptors': [{'name': 'C(C)(H)3', 'smarts': '[CX4][CX4]', 'useChirality': False}]}),
                         'smiles-smarts-entries': lambda d: d.update({'smiles_based_descriptors': [{'name': 'Cis', 'smarts': '[CX4][OX2H]', 'useChirality': False},
                                                                                                {'name': 'Alcohol', 'smarts': '[OX2H]', 'useChirality': False}],
                                                                       'smarts_based_descriptors': [{'name': 'Alcohol', 'smarts': '[#6][#8][#1]', 'useChirality': False}]})}
@@ -1027,7 +1030,7 @@ def c02_reference(tier, seed):
                 except Exception as e:    # noqa
                     viol.append({'id': 'syn-%s-%s-load' % (base, vn), 'input': {'scheme': base, 'variant': vn}, 'observed': 'Load raised %s' % type(e).__name__, 'expected': 'scheme loads'})
                     continue
-                for smi in ['C', 'CC', 'CCO', 'C=C', 'CC(C)(C)C', 'OCCO', 'C=CO', 'c1ccccc1'] if base == 'BensonGA' else ['CC', 'C([Pt])C', 'CCO', 'OC([Pt])C']:
+                for smi in ['C', 'CC', 'CCO', 'C=C', 'CC(C)(C)C', 'OCCO', 'C=CO', 'c1ccccc1', 'COCC', 'CCOC', 'CCC'] if base == 'BensonGA' else ['CC', 'C([Pt])C', 'CCO', 'OC([Pt])C']:
                     n += 1
                     try:
                         want = ('ok', _norm(S.ref_descriptors(base, smi, scheme_path=path)))
